@@ -124,8 +124,10 @@ Lemma fold_insert_canonical : forall m s, canonical s ->
   canonical (fold_left (fun s kv => s_insert (fst kv) (snd kv) s) m s).
 Proof. induction m as [|[k v] r IH]; cbn; intros s H; [exact H|]. apply IH, s_insert_canonical, H. Qed.
 
-Lemma abs_canonical : forall l, canonical (abs l).
+Lemma abs_items_canonical : forall m, canonical (abs_items m).
 Proof. intros. apply fold_insert_canonical. constructor. Qed.
+Lemma abs_canonical : forall l, canonical (abs l).
+Proof. intros. apply abs_items_canonical. Qed.
 
 Lemma canonical_nodup : forall s, canonical s -> keys_nodup s.
 Proof.
@@ -214,4 +216,348 @@ Proof.
   { unfold keys_nodup, keys. eapply Permutation_NoDup; [apply Permutation_map; exact Hp|exact Hnd]. }
   apply canonical_ext; try (apply fold_insert_canonical; constructor).
   intros k. rewrite !get_abs_items by assumption. apply items_get_perm; assumption.
+Qed.
+
+(* ---------- abs is a rearrangement of the map ---------- *)
+Lemma s_insert_perm : forall k v s, ~ In k (keys s) -> Permutation (s_insert k v s) ((k, v) :: s).
+Proof.
+  induction s as [|[k' v'] r IH]; cbn; intros Hn; [apply Permutation_refl|].
+  destruct (key_cmp k k') eqn:E.
+  - apply key_cmp_eq_iff in E. subst. exfalso. apply Hn. left; reflexivity.
+  - apply Permutation_refl.
+  - eapply perm_trans; [apply perm_skip, IH; intros H; apply Hn; right; exact H|apply perm_swap].
+Qed.
+
+Lemma fold_insert_perm : forall m s, keys_nodup (m ++ s) ->
+  Permutation (fold_left (fun s kv => s_insert (fst kv) (snd kv) s) m s) (m ++ s).
+Proof.
+  induction m as [|[k v] r IH]; cbn; intros s Hnd; [apply Permutation_refl|].
+  unfold keys_nodup, keys in Hnd. cbn in Hnd. inversion Hnd as [|? ? Hnotin Hnd']; subst.
+  assert (Hk : ~ In k (keys s)).
+  { intros H. apply Hnotin. rewrite map_app. apply in_or_app. right. exact H. }
+  eapply perm_trans; [apply IH|].
+  - unfold keys_nodup, keys.
+    apply (Permutation_NoDup (l := map fst ((k, v) :: r ++ s))); [|cbn; exact Hnd].
+    apply Permutation_map.
+    eapply perm_trans; [apply Permutation_middle|].
+    apply Permutation_app_head, Permutation_sym, s_insert_perm, Hk.
+  - eapply perm_trans; [apply Permutation_app_head, s_insert_perm, Hk|].
+    apply Permutation_sym, Permutation_middle.
+Qed.
+
+Lemma abs_items_perm : forall m, keys_nodup m -> Permutation (abs_items m) m.
+Proof.
+  intros m H. unfold abs_items. eapply perm_trans; [apply fold_insert_perm; rewrite app_nil_r; exact H|].
+  rewrite app_nil_r. apply Permutation_refl.
+Qed.
+
+Lemma abs_items_nil : forall m, abs_items m = [] <-> m = [].
+Proof.
+  intros m. split; [|intros ->; reflexivity].
+  destruct m as [|[k v] r]; [reflexivity|]. intros H. exfalso.
+  assert (G : items_get k (abs_items ((k, v) :: r)) <> None).
+  { unfold abs_items. cbn.
+    assert (forall m s, items_get k s <> None ->
+              items_get k (fold_left (fun s kv => s_insert (fst kv) (snd kv) s) m s) <> None) as F.
+    { induction m as [|[k2 v2] r2 IH]; cbn; intros s Hs; [exact Hs|]. apply IH. rewrite get_s_insert.
+      destruct (item_eqb k k2); [discriminate|exact Hs]. }
+    apply F. cbn. rewrite item_eqb_refl. discriminate. }
+  rewrite H in G. apply G. reflexivity.
+Qed.
+
+(* ---------- refinement: the model of ink_list.rs computes the set operations ---------- *)
+Definition wf_list (l : inklist) : Prop := keys_nodup (l_items l).
+
+Lemma mem_abs : forall m k, keys_nodup m -> s_mem k (abs_items m) = items_mem k m.
+Proof. intros. unfold s_mem, items_mem. rewrite get_abs_items by assumption. reflexivity. Qed.
+
+Theorem union_refines : forall a b, wf_list a -> wf_list b ->
+  abs (list_union a b) = s_union (abs a) (abs b).
+Proof.
+  intros a b Ha Hb. unfold abs, s_union. cbn [l_items list_union].
+  apply canonical_ext; [apply abs_items_canonical|apply fold_insert_canonical, abs_items_canonical|].
+  intros k. rewrite get_abs_items by (apply nodup_insert_all; exact Ha).
+  rewrite items_get_insert_all by exact Hb.
+  rewrite get_fold_insert by (apply canonical_nodup, abs_items_canonical).
+  rewrite !get_abs_items by assumption. reflexivity.
+Qed.
+
+Lemma get_fold_remove : forall (b a : items) k, keys_nodup a ->
+  items_get k (fold_left (fun (m : items) (kv : listitem * Z) => items_remove (fst kv) m) b a) =
+  if items_mem k b then None else items_get k a.
+Proof.
+  induction b as [|[k' v'] r IH]; cbn; intros a k Hnd; [reflexivity|].
+  rewrite IH by (apply nodup_remove; exact Hnd). unfold items_mem. cbn.
+  rewrite items_get_remove by exact Hnd.
+  destruct (item_eqb k k'); [destruct (items_get k r); reflexivity|reflexivity].
+Qed.
+
+Lemma nodup_fold_remove : forall (b a : items), keys_nodup a ->
+  keys_nodup (fold_left (fun (m : items) (kv : listitem * Z) => items_remove (fst kv) m) b a).
+Proof. induction b as [|x r IH]; cbn; intros a H; [exact H|]. apply IH, nodup_remove, H. Qed.
+
+Theorem without_refines : forall a b, wf_list a -> wf_list b ->
+  abs (list_without a b) = s_diff (abs a) (abs b).
+Proof.
+  intros a b Ha Hb. unfold abs, s_diff. cbn [l_items list_without].
+  apply canonical_ext; [apply abs_items_canonical|apply canonical_filter, abs_items_canonical|].
+  intros k. rewrite get_abs_items by (apply nodup_fold_remove; exact Ha).
+  rewrite get_fold_remove by exact Ha.
+  rewrite (items_get_filter (fun key => negb (s_mem key (abs_items (l_items b))))).
+  rewrite mem_abs by exact Hb. rewrite get_abs_items by exact Ha.
+  destruct (items_mem k (l_items b)); reflexivity.
+Qed.
+
+Theorem intersect_refines : forall a b, wf_list a -> wf_list b ->
+  abs (list_intersect a b) = s_inter (abs a) (abs b).
+Proof.
+  intros a b Ha Hb. unfold abs, s_inter. cbn [l_items list_intersect].
+  apply canonical_ext; [apply abs_items_canonical|apply canonical_filter, abs_items_canonical|].
+  intros k. rewrite get_abs_items by (apply nodup_filter; exact Ha).
+  rewrite (items_get_filter (fun key => items_mem key (l_items b))).
+  rewrite (items_get_filter (fun key => s_mem key (abs_items (l_items b)))).
+  rewrite mem_abs by exact Hb. rewrite get_abs_items by exact Ha. reflexivity.
+Qed.
+
+Lemma forallb_perm : forall A (f : A -> bool) l l', Permutation l l' -> forallb f l = forallb f l'.
+Proof.
+  intros A f l l' H. induction H; cbn; try congruence.
+  destruct (f x), (f y); reflexivity.
+Qed.
+
+Lemma subset_abs : forall a b, keys_nodup a -> keys_nodup b ->
+  s_subset (abs_items b) (abs_items a) = forallb (fun kv => items_mem (fst kv) a) b.
+Proof.
+  intros a b Ha Hb. unfold s_subset.
+  rewrite (forallb_perm _ _ _ _ (abs_items_perm b Hb)).
+  induction b as [|x r IH]; cbn; [reflexivity|].
+  inversion Hb; subst. rewrite mem_abs by exact Ha. f_equal. apply IH. assumption.
+Qed.
+
+Lemma is_empty_abs : forall m, s_is_empty (abs_items m) = items_is_empty m.
+Proof.
+  intros m. destruct m as [|x r]; [reflexivity|]. cbn [items_is_empty].
+  destruct (abs_items (x :: r)) eqn:E; [apply (proj1 (abs_items_nil _)) in E; discriminate E|reflexivity].
+Qed.
+
+Theorem contains_refines : forall a b, wf_list a -> wf_list b ->
+  list_contains a b = s_has (abs a) (abs b).
+Proof.
+  intros a b Ha Hb. unfold list_contains, s_has, abs, list_is_empty.
+  rewrite !is_empty_abs. rewrite subset_abs by assumption.
+  destruct (items_is_empty (l_items b)), (items_is_empty (l_items a)); reflexivity.
+Qed.
+
+Theorem count_refines : forall l, wf_list l -> Z.of_nat (length (l_items l)) = s_count (abs l).
+Proof.
+  intros l H. unfold s_count, abs. f_equal. symmetry. apply Permutation_length, abs_items_perm, H.
+Qed.
+
+(* equality: same number of keys and every key of a in b  <->  mutual inclusion *)
+Lemma forallb_mem_incl : forall a b, forallb (fun kv => items_mem (fst kv) b) a = true <-> incl (keys a) (keys b).
+Proof.
+  intros a b. rewrite forallb_forall. unfold incl, keys. split.
+  - intros H k Hk. apply in_map_iff in Hk as [x [<- Hx]]. specialize (H _ Hx).
+    unfold items_mem in H. destruct (items_get (fst x) b) eqn:E; [|discriminate].
+    apply items_get_in in E. apply (in_map fst) in E. exact E.
+  - intros H x Hx. unfold items_mem. destruct (items_get (fst x) b) eqn:E; [reflexivity|].
+    apply items_get_none in E. exfalso. apply E. apply H. apply in_map. exact Hx.
+Qed.
+
+Theorem eq_refines : forall a b, wf_list a -> wf_list b -> list_eqb a b = s_eq (abs a) (abs b).
+Proof.
+  intros a b Ha Hb. unfold list_eqb, s_eq, abs. rewrite !subset_abs by assumption.
+  destruct (forallb (fun kv => items_mem (fst kv) (l_items b)) (l_items a)) eqn:E1.
+  - rewrite andb_true_r. cbn [andb]. apply forallb_mem_incl in E1.
+    destruct (forallb (fun kv => items_mem (fst kv) (l_items a)) (l_items b)) eqn:E2.
+    + apply forallb_mem_incl in E2. apply Nat.eqb_eq.
+      apply Nat.le_antisymm.
+      * rewrite <- (map_length fst (l_items b)), <- (map_length fst (l_items a)).
+        apply NoDup_incl_length; [exact Hb|exact E2].
+      * rewrite <- (map_length fst (l_items b)), <- (map_length fst (l_items a)).
+        apply NoDup_incl_length; [exact Ha|exact E1].
+    + apply Nat.eqb_neq. intros Hlen.
+      assert (incl (keys (l_items b)) (keys (l_items a))) as Hincl.
+      { apply NoDup_length_incl; [exact Ha| |exact E1].
+        unfold keys. rewrite !map_length. rewrite Hlen. apply Nat.le_refl. }
+      apply forallb_mem_incl in Hincl. congruence.
+  - rewrite andb_false_r. reflexivity.
+Qed.
+
+(* ---------- extreme values, LIST_VALUE, the comparisons ---------- *)
+Definition smax_step (acc : option Z) (kv : listitem * Z) : option Z :=
+  match acc with None => Some (snd kv) | Some m => Some (Z.max m (snd kv)) end.
+Definition smin_step (acc : option Z) (kv : listitem * Z) : option Z :=
+  match acc with None => Some (snd kv) | Some m => Some (Z.min m (snd kv)) end.
+
+Lemma max_step_values : forall l acc,
+  option_map snd (fold_left max_step l acc) = fold_left smax_step l (option_map snd acc).
+Proof.
+  induction l as [|x r IH]; intros acc; cbn [fold_left]; [reflexivity|]. rewrite IH. f_equal.
+  destruct acc as [[k m]|]; cbn; [|reflexivity].
+  destruct (m <? snd x) eqn:E; cbn; f_equal; [apply Z.ltb_lt in E|apply Z.ltb_ge in E]; lia.
+Qed.
+Lemma min_step_values : forall l acc,
+  option_map snd (fold_left min_step l acc) = fold_left smin_step l (option_map snd acc).
+Proof.
+  induction l as [|x r IH]; intros acc; cbn [fold_left]; [reflexivity|]. rewrite IH. f_equal.
+  destruct acc as [[k m]|]; cbn; [|reflexivity].
+  destruct (snd x <? m) eqn:E; cbn; f_equal; [apply Z.ltb_lt in E|apply Z.ltb_ge in E]; lia.
+Qed.
+
+Theorem max_value_refines : forall oo l, ord_ok oo -> wf_list l -> max_value oo l = s_max_value (abs l).
+Proof.
+  intros oo l Hoo Hwf.
+  rewrite (max_value_order_independent oo ord_id l (mkList (abs l) [] []) Hoo ord_id_ok
+             (Permutation_sym (abs_items_perm _ Hwf))).
+  unfold max_value, get_max_item. cbn. apply max_step_values.
+Qed.
+Theorem min_value_refines : forall oo l, ord_ok oo -> wf_list l -> min_value oo l = s_min_value (abs l).
+Proof.
+  intros oo l Hoo Hwf.
+  rewrite (min_value_order_independent oo ord_id l (mkList (abs l) [] []) Hoo ord_id_ok
+             (Permutation_sym (abs_items_perm _ Hwf))).
+  unfold min_value, get_min_item. cbn. apply min_step_values.
+Qed.
+
+(* LIST_VALUE *)
+Theorem value_of_list_refines : forall oo l, ord_ok oo -> wf_list l ->
+  match get_max_item oo l with Some (_, m) => m | None => 0 end = s_value (abs l).
+Proof.
+  intros oo l Hoo Hwf. unfold s_value. rewrite <- (max_value_refines oo l Hoo Hwf). unfold max_value.
+  destruct (get_max_item oo l) as [[k m]|]; reflexivity.
+Qed.
+
+Lemma max_none_empty : forall oo l, ord_ok oo -> (max_value oo l = None <-> list_is_empty l = true).
+Proof.
+  intros oo l Hoo. rewrite <- (get_max_item_none oo Hoo l). unfold max_value.
+  destruct (get_max_item oo l); cbn; split; congruence.
+Qed.
+Lemma min_none_empty : forall oo l, ord_ok oo -> (min_value oo l = None <-> list_is_empty l = true).
+Proof.
+  intros oo l Hoo. rewrite <- (get_min_item_none oo Hoo l). unfold min_value.
+  destruct (get_min_item oo l); cbn; split; congruence.
+Qed.
+
+Ltac extremes oo a b Hoo Ha Hb :=
+  pose proof (max_value_refines oo a Hoo Ha) as Maxa; pose proof (min_value_refines oo a Hoo Ha) as Mina;
+  pose proof (max_value_refines oo b Hoo Hb) as Maxb; pose proof (min_value_refines oo b Hoo Hb) as Minb;
+  pose proof (max_none_empty oo a Hoo) as Ea; pose proof (min_none_empty oo a Hoo) as Ea';
+  pose proof (max_none_empty oo b Hoo) as Eb; pose proof (min_none_empty oo b Hoo) as Eb';
+  unfold max_value, min_value in *;
+  destruct (get_max_item oo a) as [[? ?]|], (get_min_item oo a) as [[? ?]|],
+           (get_max_item oo b) as [[? ?]|], (get_min_item oo b) as [[? ?]|];
+  cbn in Maxa, Mina, Maxb, Minb, Ea, Ea', Eb, Eb';
+  rewrite <- ?Maxa, <- ?Mina, <- ?Maxb, <- ?Minb;
+  destruct (list_is_empty a), (list_is_empty b);
+  try reflexivity;
+  try (exfalso;
+       repeat match goal with
+              | H : (_ = _ <-> _ = _) |- _ =>
+                  first [ discriminate (proj1 H eq_refl) | discriminate (proj2 H eq_refl) | clear H ]
+              end; fail).
+
+Theorem greater_than_refines : forall oo a b, ord_ok oo -> wf_list a -> wf_list b ->
+  list_greater_than oo a b = s_gt (abs a) (abs b).
+Proof. intros oo a b Hoo Ha Hb. unfold list_greater_than, s_gt. extremes oo a b Hoo Ha Hb. Qed.
+Theorem less_than_refines : forall oo a b, ord_ok oo -> wf_list a -> wf_list b ->
+  list_less_than oo a b = s_lt (abs a) (abs b).
+Proof. intros oo a b Hoo Ha Hb. unfold list_less_than, s_lt. extremes oo a b Hoo Ha Hb. Qed.
+Theorem greater_than_or_equals_refines : forall oo a b, ord_ok oo -> wf_list a -> wf_list b ->
+  list_greater_than_or_equals oo a b = s_ge (abs a) (abs b).
+Proof. intros oo a b Hoo Ha Hb. unfold list_greater_than_or_equals, s_ge. extremes oo a b Hoo Ha Hb. Qed.
+Theorem less_than_or_equals_refines : forall oo a b, ord_ok oo -> wf_list a -> wf_list b ->
+  list_less_than_or_equals oo a b = s_le (abs a) (abs b).
+Proof. intros oo a b Hoo Ha Hb. unfold list_less_than_or_equals, s_le. extremes oo a b Hoo Ha Hb. Qed.
+
+(* ---------- LIST_ALL / LIST_INVERT ---------- *)
+Definition wf_def (d : listdef) : Prop := NoDup (map fst (snd d)).
+
+Lemma def_items_nodup : forall d, wf_def d -> keys_nodup (def_items d).
+Proof.
+  intros [n its] H. unfold wf_def in H. cbn in H. unfold keys_nodup, keys, def_items. cbn.
+  rewrite map_map. cbn. induction its as [|[nm v] r IH]; cbn; [constructor|].
+  inversion H as [|? ? Hn Hr]; subst. constructor; [|apply IH; exact Hr].
+  intros Hin. apply in_map_iff in Hin as [[nm' v'] [E Hin]]. cbn in E. injection E as ->.
+  apply Hn. apply (in_map fst) in Hin. exact Hin.
+Qed.
+
+Definition fold_all (ds : list listdef) (m : items) : items :=
+  fold_left (fun m d => items_insert_all (def_items d) m) ds m.
+Definition fold_inv (L : items) (ds : list listdef) (m : items) : items :=
+  fold_left (fun m d => items_insert_all (filter (fun kv => negb (items_mem (fst kv) L)) (def_items d)) m) ds m.
+(* the value the declarations give to a key (the last declaration wins) *)
+Definition dget (k : listitem) (ds : list listdef) (acc : option Z) : option Z :=
+  fold_left (fun acc d => match items_get k (def_items d) with Some v => Some v | None => acc end) ds acc.
+
+Lemma nodup_fold_all : forall ds m, keys_nodup m -> keys_nodup (fold_all ds m).
+Proof. unfold fold_all. induction ds as [|d r IH]; cbn [fold_left]; intros m H; [exact H|]. apply IH, nodup_insert_all, H. Qed.
+Lemma nodup_fold_inv : forall L ds m, keys_nodup m -> keys_nodup (fold_inv L ds m).
+Proof. unfold fold_inv. induction ds as [|d r IH]; cbn [fold_left]; intros m H; [exact H|]. apply IH, nodup_insert_all, H. Qed.
+
+Lemma get_fold_all : forall ds m k, Forall wf_def ds ->
+  items_get k (fold_all ds m) = dget k ds (items_get k m).
+Proof.
+  unfold fold_all, dget. induction ds as [|d r IH]; cbn [fold_left]; intros m k H; [reflexivity|].
+  inversion H; subst. rewrite IH by assumption. f_equal.
+  apply items_get_insert_all. apply def_items_nodup. assumption.
+Qed.
+
+Lemma get_fold_inv : forall L ds m k, Forall wf_def ds ->
+  items_get k (fold_inv L ds m) = if items_mem k L then items_get k m else dget k ds (items_get k m).
+Proof.
+  unfold fold_inv, dget. induction ds as [|d r IH]; cbn [fold_left]; intros m k H; [destruct (items_mem k L); reflexivity|].
+  inversion H; subst. rewrite IH by assumption.
+  rewrite items_get_insert_all by (apply nodup_filter, def_items_nodup; assumption).
+  rewrite (items_get_filter (fun key => negb (items_mem key L))).
+  destruct (items_mem k L); cbn; reflexivity.
+Qed.
+
+Lemma abs_fold_all : forall ds m, Forall wf_def ds -> keys_nodup m ->
+  abs_items (fold_all ds m) = fold_left (fun s d => s_union s (s_of_def d)) ds (abs_items m).
+Proof.
+  unfold fold_all. induction ds as [|d r IH]; cbn [fold_left]; intros m H Hm; [reflexivity|].
+  inversion H; subst. rewrite IH by (try assumption; apply nodup_insert_all; assumption). f_equal.
+  apply (union_refines (mkList m [] []) (mkList (def_items d) [] [])); [exact Hm|apply def_items_nodup; assumption].
+Qed.
+
+Lemma s_all_abs : forall ds, Forall wf_def ds -> s_all ds = abs_items (fold_all ds []).
+Proof. intros ds H. symmetry. apply (abs_fold_all ds [] H). constructor. Qed.
+
+Theorem all_refines : forall defs l ds, origin_defs defs l = Ok ds -> Forall wf_def ds ->
+  exists r, list_all defs l = Ok r /\ abs r = s_all ds.
+Proof.
+  intros defs l ds Hds Hwf. unfold list_all. rewrite Hds. cbn. eexists. split; [reflexivity|].
+  unfold abs, s_all. cbn [l_items]. apply (abs_fold_all ds [] Hwf). constructor.
+Qed.
+
+Theorem invert_refines : forall defs l ds, origin_defs defs l = Ok ds -> Forall wf_def ds -> wf_list l ->
+  exists r, list_inverse defs l = Ok r /\ abs r = s_invert ds (abs l).
+Proof.
+  intros defs l ds Hds Hwf Hl. unfold list_inverse. rewrite Hds. cbn. eexists. split; [reflexivity|].
+  unfold abs, s_invert, s_diff. cbn [l_items].
+  change (fold_left _ ds []) with (fold_inv (l_items l) ds []).
+  apply canonical_ext; [apply abs_items_canonical|apply canonical_filter|].
+  - rewrite (s_all_abs ds Hwf). apply abs_items_canonical.
+  - intros k. rewrite get_abs_items by (apply nodup_fold_inv; constructor).
+    rewrite get_fold_inv by exact Hwf.
+    rewrite (items_get_filter (fun key => negb (s_mem key (abs_items (l_items l))))).
+    rewrite mem_abs by exact Hl.
+    rewrite (s_all_abs ds Hwf).
+    rewrite get_abs_items by (apply nodup_fold_all; constructor). rewrite get_fold_all by exact Hwf.
+    destruct (items_mem k (l_items l)); reflexivity.
+Qed.
+
+(* non-vacuity of the hypotheses: a two-origin list over two declarations *)
+Example refinement_hypotheses_example :
+  let L := (T "L", [(T "a", 1); (T "b", 2)]) in
+  let M := (T "M", [(T "x", 1)]) in
+  let l := mkList [(mkItem (Some (T "M")) (T "x"), 1); (mkItem (Some (T "L")) (T "a"), 1)] [T "M"; T "L"] [] in
+  wf_def L /\ wf_def M /\ wf_list l /\ origin_defs [L; M] l = Ok [M; L] /\
+  abs l = [(mkItem (Some (T "L")) (T "a"), 1); (mkItem (Some (T "M")) (T "x"), 1)].
+Proof.
+  cbn zeta. repeat split.
+  - repeat constructor; cbn; intuition discriminate.
+  - repeat constructor; cbn; intuition discriminate.
+  - repeat constructor; cbn; intuition discriminate.
 Qed.
